@@ -829,7 +829,15 @@ static std::string subst(const std::string& line, const TBody& b)
 {
 	std::string o;
 	for (size_t i = 0; i < line.size(); i++) {
-		if (line[i] == '$' && i + 1 < line.size() && isdigit((unsigned char)line[i + 1])) {
+		if (line[i] == '$' && i + 2 < line.size() && line[i + 1] == 'T' && isdigit((unsigned char)line[i + 2])) {
+			// $T<t>.<k>: the handle returned by line k of thread t (used by the final, sequential observations)
+			size_t j = i + 2; unsigned long t = 0, k = 0;
+			while (j < line.size() && isdigit((unsigned char)line[j])) { t = t * 10 + (line[j] - '0'); j++; }
+			if (j < line.size() && line[j] == '.') j++;
+			while (j < line.size() && isdigit((unsigned char)line[j])) { k = k * 10 + (line[j] - '0'); j++; }
+			o += std::to_string((t < T_bodies.size() && k < T_bodies[t].hs.size()) ? T_bodies[t].hs[k] : 0);
+			i = j - 1;
+		} else if (line[i] == '$' && i + 1 < line.size() && isdigit((unsigned char)line[i + 1])) {
 			size_t j = i + 1; unsigned long k = 0;
 			while (j < line.size() && isdigit((unsigned char)line[j])) { k = k * 10 + (line[j] - '0'); j++; }
 			o += std::to_string(k < b.hs.size() ? b.hs[k] : 0);
